@@ -92,6 +92,9 @@ struct Access
 		return "";
 	}
 
+	// visit the pending events (front to back) without consuming them
+	template <typename Q, typename F> static void forEachQueued(const Q & q, F f) { for(auto it = q.queueList.begin(); it != q.queueList.end(); ++it) f(it->get()); }
+
 	// the queue's condition variable (an injected MonCV in the concurrent drivers)
 	template <typename Q> static auto cv(const Q & q) -> decltype((q.queueListConditionVariable)) { return q.queueListConditionVariable; }
 
